@@ -25,8 +25,11 @@ Apply(m, e) ==
                   ELSE IF e.type = "PINGREQ" /\ e.partial = 0 THEN
                            (IF m.k = 0 THEN Breach(m, e, "ping-with-k0") ELSE [m EXCEPT !.last = e.t, !.ping = e.t, !.answered = FALSE])
                   ELSE [m EXCEPT !.last = e.t]
-           [] e.ev = "Rx" /\ m.up /\ e.type = "PINGRESP" /\ e.result = "ok" /\ m.ping >= 0 ->
-                  IF e.t < Deadline(m) THEN [m EXCEPT !.ping = -1, !.answered = TRUE] ELSE m
+           \* a response the engine accepted settles the ping.  One that arrives at or after the deadline can only get
+           \* here if no service call happened at or after the deadline (that call would have been judged below), so
+           \* nothing is excused by this: the statement does not oblige the client to refuse an answer that beats the
+           \* service call to the deadline instant.
+           [] e.ev = "Rx" /\ m.up /\ e.type = "PINGRESP" /\ e.result = "ok" /\ m.ping >= 0 -> [m EXCEPT !.ping = -1, !.answered = TRUE]
            [] e.ev = "Rx" /\ m.up /\ e.result # "ok" -> [m EXCEPT !.up = FALSE]
            [] e.ev = "WriteDone" /\ m.up /\ e.result # "ok" -> [m EXCEPT !.up = FALSE]
            [] e.ev = "Service" /\ m.up ->
